@@ -3,6 +3,7 @@
 -/
 import Driver.Rules
 import Driver.Exhaust
+import Driver.Compose
 open Pabu Pabu.Driver
 
 def dispatch (line : String) : String :=
@@ -17,6 +18,7 @@ def dispatch (line : String) : String :=
     | "phragmen" => cmdPhragmen a
     | "maxw" => cmdMaxw a
     | "exhaust" => cmdExhaust a
+    | "compose" => cmdCompose a
     | _ => "bad-op"
 
 partial def loop (h : IO.FS.Stream) (out : IO.FS.Stream) : IO Unit := do
